@@ -92,10 +92,25 @@ def observe(s):
     return ("acc", p)
 
 
+def c_num(n):
+    """Z literal; very large ones in hexadecimal (Coq 8.16 needs ~35 s to read one 4300-digit decimal literal, and
+    milliseconds for the same number in hexadecimal)"""
+    n = int(n)
+    if abs(n) < 10 ** 60:
+        return core.cz(n)
+    return hex(n) if n >= 0 else f"({hex(n)})"
+
+
+def c_pos(p):
+    st = p.stones
+    return (f"(P {c_num(p.size)} {c_num(st[0].stones)} {c_num(st[0].caps)} {c_num(st[1].stones)} {c_num(st[1].caps)} "
+            f"{c_num(p.ply)} {takio.c_board(p.board)})")
+
+
 def c_obs(o):
     if o[0] == "acc":
         try:
-            return f"(OAcc {takio.c_pos(o[1])})"
+            return f"(OAcc {c_pos(o[1])})"
         except Exception:  # noqa  (a result that is not a position of pieces)
             return "OCrash"
     return "OIll" if o[0] == "ill" else "OCrash"
@@ -519,6 +534,12 @@ def _report(run, cs, failing, limit, describe):
         run.extra.setdefault("more_failing_cases", {})[cs.name] = len(failing) - limit
 
 
+def _shard(cs, lo, hi):
+    """cases per file so that the family is one wave of about NPROC parallel coqc processes (bounded)"""
+    cs.shard = max(lo, min(hi, -(-len(cs) // max(1, core.NPROC))))
+    return cs
+
+
 def _split_hits(direct, failing, shard_fail):
     """oracle hits -> (confirmed by a model disagreement on the same case, not confirmed).  The last component of a hit
     is the key of its case (None: no case could be written, e.g. format_tps raised).  With a broken shard nothing can be
@@ -533,7 +554,7 @@ def _split_hits(direct, failing, shard_fail):
 def _positions(run):
     rng = run.rng
     if run.quick:
-        plan = {3: (60, 6, 250), 4: (60, 6, 250), 5: (60, 6, 250), 6: (50, 6, 220), 7: (32, 6, 180), 8: (28, 6, 160)}
+        plan = {3: (30, 6, 125), 4: (30, 6, 125), 5: (30, 6, 125), 6: (25, 6, 110), 7: (16, 6, 90), 8: (14, 6, 80)}
     else:
         plan = {3: (700, 8, 3600), 4: (700, 8, 3600), 5: (700, 8, 3600), 6: (600, 8, 3200), 7: (450, 8, 2800), 8: (350, 8, 2400)}
     out = []
@@ -562,7 +583,7 @@ def _cases_fmt(run, positions):
         why = oracle_position(p, t, o)
         if why:
             direct.append((p, origin, why, key))
-        cs.add(f"({takio.c_pos(p)}, {cstr(t)}, {c_obs(o)})",
+        cs.add(f"({c_pos(p)}, {cstr(t)}, {c_obs(o)})",
                {"key": key, "kind": "fmt", "origin": origin, "position": takio.j_pos(p), "impl_text": t, "impl_parse": j_obs(o)})
         d = f"size{p.size}/{origin}"
         dist[d] = dist.get(d, 0) + 1
@@ -683,7 +704,7 @@ def correspondence(run):
 
     with memory_guard():
         cs, dist, nontriv, samples, direct = _cases_fmt(run, positions)
-    failing, shard_fail, nshards = cs.run()
+    failing, shard_fail, nshards = _shard(cs, 60, 100).run()
     run.oblige(f"correspondence:fmt ({nshards} shards)", not shard_fail, str(shard_fail)[:1500])
     run.count(len(cs), nontriv,
               "positions of sizes 3-8 (random playouts, constructed boards with stacks up to 40 high, standard and custom "
@@ -701,10 +722,10 @@ def correspondence(run):
         run.violation(_key("fmt-direct", str(takio.j_pos(p))), {"clause": "formatting a position and parsing it back gives an equal position",
                                                                 "kind": "fmt", "input": {"position": takio.j_pos(p), "origin": origin}, "observed": why})
 
-    n_grammar = 600 if run.quick else 20000
+    n_grammar = 300 if run.quick else 20000
     with memory_guard():
         cs2, dist2, n2, samples2, direct2 = _cases_canon(run, positions, n_grammar)
-    failing2, shard_fail2, nshards2 = cs2.run()
+    failing2, shard_fail2, nshards2 = _shard(cs2, 80, 150).run()
     run.oblige(f"correspondence:canon ({nshards2} shards)", not shard_fail2, str(shard_fail2)[:1500])
     run.count(len(cs2), n2,
               "canonical strings from the independent writer (from every position above, plus strings drawn from the TPS "
@@ -720,12 +741,12 @@ def correspondence(run):
         run.violation(_key("canon-direct", t), {"clause": "canonical TPS means what the standard says and is written back unchanged",
                                                 "kind": "canon", "input": {"text": t, "origin": origin}, "observed": why, "impl": j_obs(o)})
 
-    n_mut = 20000 if run.quick else 500000
+    n_mut = 10000 if run.quick else 500000
     seeds = [indep_write(p.size, board_of(p), p.ply) for p, _ in positions if p.size <= 6 or run.rng.random() < 0.3]
     seeds = [s for s in seeds if len(s) < 160] or ["x3/x3/x3 1 1"]
     with memory_guard():
         cs3, dist3, n3, samples3, direct3 = _cases_mut(run, seeds, n_mut)
-    failing3, shard_fail3, nshards3 = cs3.run()
+    failing3, shard_fail3, nshards3 = _shard(cs3, 300, 700).run()
     run.oblige(f"correspondence:mut ({nshards3} shards)", not shard_fail3, str(shard_fail3)[:1500])
     run.count(len(cs3), n3,
               "grammar-directed mutations (depth <= 3) of valid strings plus a fixed list of malformed texts: observed "
